@@ -10,13 +10,10 @@ package main
 // rendering arithmetic); the encoder core's own outcome (ok + natural dims / error) is measured on the real
 // code (0x0, margin-0 call of the same writer) and handed to the model as data.
 //
-// Reading of "any hint values of the accepted types" (specs/C12.json): a Go type is accepted for a key by a
-// writer when the writer's code handles it without an unchecked single-value type assertion: the cases of its
-// type switch / comma-ok chain (ints and numeric strings for MARGIN, QR_VERSION, QR_MASK_PATTERN; bool and
-// string for GS1_FORMAT; ErrorCorrectionLevel and string; SymbolShapeHint; *Dimension; string for
-// FORCE_CODE_SET), every type where the value is formatted with %v (CHARACTER_SET), and the types its
-// else-branch turns into an error. The only excluded combination is Code128 + FORCE_CODE_SET of a non-string
-// type (`codeSetHint.(string)`): it is generated in the correspondence stream only (the model predicts PANIC).
+// Reading of "any hint values of the accepted types" (specs/C12.json): every dynamic Go type is generated for
+// every key. Each writer handles every type through a type switch / comma-ok chain, a %v formatting
+// (CHARACTER_SET) or an else-branch that returns an error or ignores the value; since the repair of Code 128's
+// unchecked `codeSetHint.(string)` no combination is excluded.
 
 import (
 	"fmt"
@@ -248,12 +245,11 @@ func c12GenHint(r *Rng, key gozxing.EncodeHintType, symLen int) (v interface{}, 
 		case 5, 6:
 			v, enc = c12Str(r.PickS([]string{"", "D", "a", "AB", "c", "C "}))
 		default:
-			// outside the statement for Code128 (unchecked `.(string)`); harmless for every other writer
+			// not a string: every writer must answer with an error or ignore it (Code 128: error)
 			v, enc = c12Odd(r)
 			if r.Bool() {
 				v, enc = c12Int(r.Range(0, 3))
 			}
-			inStatement = false
 		}
 	}
 	return
@@ -776,6 +772,8 @@ func c12Corpus(ws []c12Writer) []*c12Case {
 		// another consequence of D16 (witness found by the C02 oracle): EDIFACT encodation meets a CR between two
 		// look-ahead points, the "illegal character" error is dropped and EncodeHighLevel spins forever
 		func() *c12Case { k := mk("DM", "LR+'=HBK5N2\r5=J\"/B", 0, 0); k.knownHang = true; return k }(),
+		// Code 128: FORCE_CODE_SET of a non-string type (was an unchecked type assertion)
+		mk("CODE_128", "A", 0, 0, h(gozxing.EncodeHintType_FORCE_CODE_SET, 1, "int:1")),
 		// out-of-range ErrorCorrectionLevel value
 		mk("QR", "hello", 0, 0, h(gozxing.EncodeHintType_ERROR_CORRECTION, qrdecoder.ErrorCorrectionLevel(7), "other:ecl:7")),
 	}
